@@ -148,7 +148,9 @@ fn run<T: RealNumber>(case: &RegCase, ctx: &mut Ctx) -> Result<(), Fail> {
         let is_svd = matches!(solver, RidgeRegressionSolverName::SVD);
         let tag = format!("ridge/{:?}", solver).to_lowercase();
         let r = catch(|| {
-            let m = RidgeRegression::fit(&xm, &ty, RidgeRegressionParameters::default().with_alpha(tf::<T>(alpha)).with_normalize(case.normalize).with_solver(solver.clone())).map_err(|e| e.to_string())?;
+            // builder calls in two orders (a setter that rebuilds from the defaults would lose earlier settings)
+            let params = if n % 2 == 0 { RidgeRegressionParameters::default().with_alpha(tf::<T>(alpha)).with_normalize(case.normalize).with_solver(solver.clone()) } else { RidgeRegressionParameters::default().with_solver(solver.clone()).with_normalize(case.normalize).with_alpha(tf::<T>(alpha)) };
+            let m = RidgeRegression::fit(&xm, &ty, params).map_err(|e| e.to_string())?;
             let w = to_mat(m.coefficients());
             let pred = m.predict(&fm).map_err(|e| e.to_string())?;
             Ok::<_, String>((w, ft(m.intercept()), fvec(&pred)))
